@@ -7,6 +7,8 @@ clip evaluation: the clip id, the clip score and every match as (index of the pr
 annotation | none, affinity, score); plus the overall score and compute_affinity of every prediction/annotation pair.
 Indices are 1-based, None is [], doubles are limbs + hex.
 """
+import copy
+import math
 import random
 import uuid
 import warnings
@@ -52,6 +54,7 @@ ASSUMPTIONS = ["'extra' universe: regions with an interior ring (MultiPolygon an
 
 _REC = data.Recording(path="a.wav", duration=1000.0, channels=1, samplerate=8000, uuid=uuid.UUID(int=77))
 _OOV = data.Tag(key="species", value="zz")
+_SNR = data.Term(name="v:snr", label="snr", definition="clip level signal to noise ratio")
 
 
 def _V(x):
@@ -88,6 +91,15 @@ def _build(case, tu, geom_of):
     for c in case["clips"]:
         cid = c["id"]
         clip = data.Clip(recording=_REC, start_time=0.0, end_time=100.0 + cid, uuid=_uid(1, cid))
+        cv = c.get("cv", 0)                          # which Clip object the prediction side holds (same identity: the uuid)
+        if cv == 0:
+            pclip = clip
+        elif cv == 1:
+            pclip = copy.deepcopy(clip)
+        elif cv == 2:
+            pclip = clip.model_copy(update={"features": [data.Feature(term=_SNR, value=3.0)]})
+        else:
+            pclip = data.Clip(recording=_REC, start_time=0.0, end_time=math.nextafter(100.0 + cid, 1e9), uuid=_uid(1, cid))
         pg, ag = [], []
         ses = []
         for j, a in enumerate(c["anns"]):
@@ -112,7 +124,7 @@ def _build(case, tu, geom_of):
             ses.append(data.SoundEventPrediction(
                 uuid=_uid(5, cid, i), score=0.5, tags=pt,
                 sound_event=data.SoundEvent(uuid=_uid(6, cid, i), recording=_REC, geometry=g)))
-        preds[cid] = data.ClipPrediction(uuid=_uid(7, cid), clip=clip, sound_events=ses)
+        preds[cid] = data.ClipPrediction(uuid=_uid(7, cid), clip=pclip, sound_events=ses)
         geoms[cid] = (pg, ag)
     return ([preds[k] for k in case["porder"]], [anns[k] for k in case["aorder"]], tags, geoms)
 
@@ -187,7 +199,7 @@ def random_cases(rng, tier):
             return [rng.choice(KINDS if rng.random() < 0.4 else ["BoundingBox", "Polygon", "TimeInterval", "MultiPolygon"])]
         clips = [{"id": 1, "anns": [{"g": ["BoundingBox"], "cls": 1}], "preds": [{"g": ["Polygon"], "sc": scores()}]}]
         for cid in range(2, rng.randint(2, 4) + 1):
-            clips.append({"id": cid,
+            clips.append({"id": cid, "cv": rng.randrange(4),
                           "anns": [{"g": gk(), "cls": rng.choice([0, 9] + list(range(1, v + 1)))} for _ in range(rng.randint(0, 4))],
                           "preds": [{"g": gk(), "sc": scores()} for _ in range(rng.randint(0, 4))]})
         ids = [c["id"] for c in clips]
